@@ -3,7 +3,9 @@
 From Coq Require Import List Arith ZArith Lia Ring Field.
 From VBase Require Import FieldOps ZpOps.
 From VModel Require Import Composition.
-From VProofs Require Import ZpLaws CompositionBase CompositionIndex CompositionVerifier CompositionTable.
+From VModel Require FFT Stark.
+From VProofs Require FFTSpec FFTEval FFTOffset StarkPoly.
+From VProofs Require Import ZpLaws CompositionBase CompositionIndex CompositionVerifier CompositionTable CompositionFFT CompositionValid.
 Import ListNotations.
 Local Open Scope nat_scope.
 
@@ -114,6 +116,28 @@ Proof.
   - reflexivity.
 Qed.
 
+(* the single-segment path: same AIR without the auxiliary segment *)
+Example table_row_spec_single_segment_instance :
+  evaluate O64 2 2 2 (e64 7) rouA 1 tmainA tauxA ppolysA 1 [e64 11] [gA; gA2] [] [] false (ldeA tpolysA) [] (fun _ v => v)
+  = Some (map (fun i => comp_def O64 2 rouA tmainA tauxA ppolysA 1 [e64 11] [gA; gA2] [] [] false tpolysA []
+                          (ce_x O64 2 2 (e64 7) rouA i)) (seq 0 (ce_size 2 2))).
+Proof.
+  apply (evaluate_spec_main O64 F64_laws 2 2 2 1 (e64 7) rouA i4 m1); try lia.
+  - exact i4_order.
+  - exact i4_1.
+  - exact i4_sq.
+  - exact m1_inv.
+  - reflexivity.
+  - intros p [<-|[]]. simpl. lia.
+  - intros p [<-|[]]. reflexivity.
+  - intros p [<-|[]]. exists 1. reflexivity.
+  - intros p [<-|[]]. symmetry. exact i4_1.
+  - intros g [<-|[<-|[]]]; (split; [repeat split; simpl; lia|]); intros c [<-|[]]; repeat split; simpl; lia.
+  - intros g [].
+  - apply lde_rows_witness.
+  - reflexivity.
+Qed.
+
 Section TwoPoint.
 Context {F : Type} (O : FOps F) (L : FLaws O).
 Add Field Ftp : (FLaws_field_theory O L).
@@ -204,5 +228,35 @@ Proof.
   - unfold ce_size. simpl. lia.
   - simpl. lia.
   - unfold ce_size. lia.
+Qed.
+(* the assembled capstone (single-segment path) on the empty AIR over a trace of length 1: the FFT model's inverse
+   twiddles for size 2, the root conditions, odd characteristic, the primitive root of the (one-point) trace domain and
+   the disjointness of the coset {7, -7} from it are all satisfiable together *)
+Example composition_is_definition_instance :
+  exists itw, FFT.get_inv_twiddles O64 32 (fun _ => m1) (2 ^ 1) = Some itw /\
+  exists Q evals cols,
+    length Q <= 0
+    /\ evaluate O64 1 2 2 (e64 7) rouB 0 (fun _ _ _ => []) (fun _ _ _ _ _ _ => []) [] 1 [] [] [] [] false
+                (map (fun _ => []) (seq 0 2)) [] (fun _ v => v) = Some evals
+    /\ composition_poly_new 1 (interp_fft O64 32 itw (e64 7)) evals 1 = Some cols
+    /\ (forall z, recombine O64 1 (cp_evaluate_at O64 cols z) z = peval O64 Q z)
+    /\ (forall z, ~ In z (Stark.domain O64 (gtrace 1 rouB) 1) -> recombine O64 1 (cp_evaluate_at O64 cols z) z
+          = comp_def O64 1 rouB (fun _ _ _ => []) (fun _ _ _ _ _ _ => []) [] 1 [] [] [] [] false [] [] z).
+Proof.
+  eexists. split; [reflexivity|].
+  apply (composition_is_definition_valid_main O64 F64_laws 1 2 2 1 (e64 7) rouB m1 (fone O64)) with
+    (rouk := fun _ : nat => m1) (K := 0) (N := @nil Fq)
+    (Bm := fun _ : @BGroup Fq => @nil Fq) (Rm := fun _ : @BGroup Fq => @nil Fq)
+    (Ba := fun _ : @BGroup Fq => @nil Fq) (Ra := fun _ : @BGroup Fq => @nil Fq);
+    try lia; try (intros ? Hf; exact (False_ind _ Hf));
+    try first [ exact m1_sq | exact m1_1 | reflexivity | constructor ].
+  - zpc.
+  - intros i j Hi Hj _. lia.
+  - reflexivity.
+  - intros j Hj. destruct j as [|[|]]; try (unfold lde_size in Hj; lia); reflexivity.
+  - intros H. apply (f_equal (@zp_val P64)) in H. vm_compute in H. discriminate.
+  - zpc.
+  - intros i Hi [H|[]]. destruct i as [|[|]]; try (unfold ce_size in Hi; lia);
+      apply (f_equal (@zp_val P64)) in H; vm_compute in H; discriminate.
 Qed.
 End CapstoneInstance.
